@@ -361,30 +361,10 @@ Proof.
 Qed.
 
 (* ---- Session::process -------------------------------------------------------------------------------------- *)
-(* the two catch branches of process *)
+(* the catch (f8Exception&) block and the try block of process (Sess.Session.process_catch / process_body) *)
 Definition catch19 (q : N) (mt : option bytes) (r : (bool + exc) * sess * list event) : bool * sess * list event :=
-  match r with
-  | (inl b, s1, e1) => (b, s1, e1)
-  | (inr (Exc text true), s1, e1) =>
-    let '(s2, e2) :=
-      if (s_state s1 =? st_logon_received) && negb (pr_sd (s_par s1)) then
-        let sa := w_state st_session_terminated s1 in
-        let '(_, sb, eb) := send sc now sa (generate_logout sc (Some text)) 0 true in
-        (w_state st_logoff_sent sb, eb)
-      else (s1, []) in
-    (false, stop s2, (e1 ++ e2)%list)
-  | (inr (Exc text false), s1, e1) =>
-    let '(_, s2, e2) := handle_outbound_reject sc now q mt text s1 in
-    (true, w_next_recv (s_next_recv s2 + 1) s2, (e1 ++ e2)%list)
-  end.
-
-(* the try block after the message has been decoded *)
-Definition body19 (q : N) (m : msg) : M bool :=
-  rr <- dispatch sc decode now q m ;;
-  modify (fun s => w_next_recv (s_next_recv s + 1) s) ;;;
-  modify update_persist_seqnums ;;;
-  (if snd rr then modify stop else ret tt) ;;;
-  ret (fst rr).
+  process_catch sc now q mt r.
+Definition body19 (q : N) (m : msg) : M bool := process_body sc decode now q m.
 
 Lemma process_decoded : forall raw s q m,
   raw_seq raw = Some q -> decode raw = DecOk m ->
@@ -410,7 +390,7 @@ Proof. intros raw s R. unfold process. rewrite R. reflexivity. Qed.
 Lemma catch19_events : forall q mt r s1 e1 b s' e,
   catch19 q mt (r, s1, e1) = (b, s', e) -> exists e2, e = (e1 ++ e2)%list /\ quiet e2.
 Proof.
-  intros q mt r s1 e1 b s' e. unfold catch19. destruct r as [b0|[text force]].
+  intros q mt r s1 e1 b s' e. unfold catch19, process_catch. destruct r as [b0|[text force]].
   - intro H. inversion H; subst. exists []. rewrite app_nil_r. split; [reflexivity|apply quiet_nil].
   - destruct force.
     + destruct ((s_state s1 =? st_logon_received) && negb (pr_sd (s_par s1))).
@@ -425,7 +405,7 @@ Qed.
 Lemma body19_events : forall q m s r s' e,
   body19 q m s = (r, s', e) -> exists r0 s0, dispatch sc decode now q m s = (r0, s0, e).
 Proof.
-  intros q m s r s' e. unfold body19. unfold bind at 1.
+  intros q m s r s' e. unfold body19, process_body. unfold bind at 1.
   destruct (dispatch sc decode now q m s) as [[[rr|x] s1] e1] eqn:E.
   - unfold bind, modify, ret. destruct (snd rr); cbn; intro H; inversion H; subst; rewrite !app_nil_r; eauto.
   - intro H. inversion H; subst. eauto.
@@ -433,7 +413,7 @@ Qed.
 
 Lemma body19_exc : forall q m s x s1 e1,
   dispatch sc decode now q m s = (inr x, s1, e1) -> body19 q m s = (inr x, s1, e1).
-Proof. intros. unfold body19. unfold bind at 1. rewrite H. reflexivity. Qed.
+Proof. intros. unfold body19, process_body. unfold bind at 1. rewrite H. reflexivity. Qed.
 
 (* THE DELIVERY THEOREM on the number process scans from the raw bytes *)
 Theorem process_delivered : forall raw s q m r s' e,
@@ -560,7 +540,7 @@ Lemma catch19_fatal_silent : forall q mt text s,
   s_state s <> st_logon_received ->
   catch19 q mt (inr (Exc text true), s, []) = (false, stop s, []).
 Proof.
-  intros q mt text s L. unfold catch19. apply N.eqb_neq in L. rewrite L. reflexivity.
+  intros q mt text s L. unfold catch19, process_catch. apply N.eqb_neq in L. rewrite L. reflexivity.
 Qed.
 
 Lemma catch19_fatal_logout : forall q mt text s,
@@ -569,7 +549,7 @@ Lemma catch19_fatal_logout : forall q mt text s,
   (let '(_, sb, eb) := send sc now (w_state st_session_terminated s) (generate_logout sc (Some text)) 0 true in
    (false, stop (w_state st_logoff_sent sb), eb)).
 Proof.
-  intros q mt text s L SD. unfold catch19. rewrite L, SD. cbn [N.eqb st_logon_received Pos.eqb negb andb].
+  intros q mt text s L SD. unfold catch19, process_catch. rewrite L, SD. cbn [N.eqb st_logon_received Pos.eqb negb andb].
   destruct (send sc now (w_state st_session_terminated s) (generate_logout sc (Some text)) 0 true) as [[ok sb] eb].
   reflexivity.
 Qed.
@@ -692,7 +672,7 @@ Theorem fatal_branch : forall now q mt text s,
   (forall r s' e, catch19 now q mt (inr (Exc text true), s, []) = (r, s', e) -> r = false /\ s_shutdown s' = true).
 Proof.
   intros now q mt text s. split; [apply catch19_fatal_silent|split; [apply catch19_fatal_logout|]].
-  intros r s' e. unfold catch19.
+  intros r s' e. unfold catch19, process_catch.
   destruct ((s_state s =? st_logon_received) && negb (pr_sd (s_par s))).
   - destruct (send sc now (w_state st_session_terminated s) (generate_logout sc (Some text)) 0 true) as [[ok sb] eb].
     intro H. inversion H; subst. split; [reflexivity|apply stop_shutdown].
@@ -708,12 +688,12 @@ Theorem decode_failure : forall now raw s q text force,
   (force = false ->
    process sc decode fl now raw s =
    (let '(_, s2, e2) := send sc now s (generate_reject sc q (Some text) None) 0 false in
-    (true, w_next_recv (s_next_recv s + 1) s2, e2))) /\
+    (true, update_persist_seqnums (w_next_recv (s_next_recv s + 1) s2), e2))) /\
   (force = true -> process sc decode fl now raw s = catch19 now q None (inr (Exc text true), s, [])).
 Proof.
   intros now raw s q text force D R. split; [|split].
   - intros r s' e P. eapply process_undecoded_quiet; [|exact P]. intros m E. congruence.
-  - intro F. subst force. rewrite (process_undecoded now _ _ _ _ _ R D). unfold catch19, handle_outbound_reject, do_send.
+  - intro F. subst force. rewrite (process_undecoded now _ _ _ _ _ R D). unfold catch19, process_catch, handle_outbound_reject, do_send.
     destruct (send sc now s (generate_reject sc q (Some text) None) 0 false) as [[ok s2] e2] eqn:E.
     destruct (send_keeps _ _ _ _ _ _ _ _ E) as [K _]. rewrite K. reflexivity.
   - intro F. subst force. apply process_undecoded; assumption.
@@ -725,9 +705,9 @@ Theorem no34_note : forall now raw s,
   find_after pat_34 raw = None ->
   process sc decode fl now raw s =
   (let '(_, s2, e2) := send sc now s (generate_reject sc 0 (Some (fmt2 txt_invmsg raw txt_at fl)) None) 0 false in
-   (true, w_next_recv (s_next_recv s + 1) s2, e2)).
+   (true, update_persist_seqnums (w_next_recv (s_next_recv s + 1) s2), e2)).
 Proof.
-  intros now raw s F. rewrite (process_no34 now _ _ F). unfold catch19, handle_outbound_reject, do_send.
+  intros now raw s F. rewrite (process_no34 now _ _ F). unfold catch19, process_catch, handle_outbound_reject, do_send.
   destruct (send sc now s (generate_reject sc 0 (Some (fmt2 txt_invmsg raw txt_at fl)) None) 0 false) as [[ok s2] e2] eqn:E.
   destruct (send_keeps _ _ _ _ _ _ _ _ E) as [K _]. rewrite K. reflexivity.
 Qed.
